@@ -238,10 +238,18 @@ impl FwCase {
     pub fn build(&self) -> Result<Fw, String> {
         let ms = self.machines.clone();
         let rng = SimRng::new(&self.rng);
+        set_call_word(self.init_word());
         match catch_sut(|| Framework::new(ms, self.pf, self.bf, VInstant(self.start), rng)) {
             Ok(Ok(f)) => Ok(f),
             Ok(Err(e)) => Err(format!("Framework::new returned Err: {e}")),
             Err(p) => Err(format!("Framework::new panicked: {p}")),
+        }
+    }
+    /// the word in effect while the framework is constructed (ConstPerCall)
+    pub fn init_word(&self) -> u64 {
+        match &self.rng {
+            RngSpec::ConstPerCall(w) if !w.is_empty() => w[w.len() - 1],
+            _ => 0,
         }
     }
     pub fn call_word(&self, k: usize) -> u64 {
@@ -343,7 +351,7 @@ pub fn run_case(
                 stats.add("events", call.ev.len() as u64);
                 stats.add("actions", out.actions.len() as u64);
                 if call.now > prev_now {
-                    stats.add("sim_time_ns", (call.now - prev_now).min(86_400_000_000_000));
+                    stats.add("sim_time_us", (call.now - prev_now).min(86_400_000_000_000) / 1000);
                 }
                 prev_now = call.now;
                 for e in &call.ev {
